@@ -43,7 +43,7 @@ pub fn plan(property: &str) -> Option<Plan> {
     Some(match property {
         "C01" => Plan { property: "C01", level: "exploration", parts: vec![(Clean, 30000, 600000), (Benign, 12000, 250000), (Crash, 18000, 400000)], rule: rule_hist, assumptions: common_assume },
         "C02" => Plan { property: "C02", level: "exploration", parts: vec![(Foreign, 30000, 600000)], rule: "one case = one foreign-encoded start image (format knobs drawn per run) plus a seeded history; non-trivial = the image holds at least one user table or stream and an oracle was evaluated; distinct = different fingerprint", assumptions: common_assume },
-        "C03" => Plan { property: "C03", level: "exploration", parts: vec![(Clean, 25000, 500000), (Benign, 10000, 200000)], rule: rule_hist, assumptions: common_assume },
+        "C03" => Plan { property: "C03", level: "exploration", parts: vec![(Clean, 25000, 500000), (Benign, 10000, 200000), (Reject, 6000, 120000)], rule: rule_hist, assumptions: common_assume },
         "C04" => Plan { property: "C04", level: "exploration", parts: vec![(Reject, 30000, 600000)], rule: "one case = one seeded history with ~30% invalid calls (late-failure biased), each refused call bracketed by full snapshots, plus a twin run with the refused calls deleted; non-trivial = at least one refused call; distinct = different fingerprint", assumptions: common_assume },
         "C05" => Plan { property: "C05", level: "exploration", parts: vec![(Clean, 20000, 400000), (Reject, 10000, 200000), (Benign, 6000, 100000)], rule: rule_hist, assumptions: common_assume },
         "C06" => Plan { property: "C06", level: "exploration", parts: vec![(Schema, 30000, 600000)], rule: rule_hist, assumptions: common_assume },
